@@ -209,6 +209,11 @@ func s16Analyse(fns []*ssa.Function, inScope func(*ssa.Function) bool) s16Result
 						for key := range sum[callee].releases {
 							def[key] = true
 						}
+					} else if cl, ok := x.Common().Value.(*ssa.Call); ok && cl.Call.StaticCallee() != nil && sum[cl.Call.StaticCallee()] != nil {
+						// `defer c.lock()()`: the helper takes the lock and returns the function that releases it
+						for key := range sum[cl.Call.StaticCallee()].acquires {
+							def[key] = true
+						}
 					} else if mc, ok := x.Common().Value.(*ssa.MakeClosure); ok {
 						if cf, ok := mc.Fn.(*ssa.Function); ok && sum[cf] != nil {
 							for key := range sum[cf].releases {
